@@ -480,3 +480,138 @@ def variants(world, tier="quick", only=None):
     if only:
         out = [v for v in out if any(o in v.name for o in only)]
     return out
+
+
+# ---------------------------------------------------------------------------
+# the parser's own operator helpers: (- t)  (- a b)  (= a b)  (/ a b)  (div a b)
+# ---------------------------------------------------------------------------
+class TypeManagerConst(Contract):
+    def __init__(self, name, ty):
+        self.qualname = "pysmt.typing.TypeManager." + name
+        self.ty = ty
+
+    def apply(self, ex, a, kw):
+        return self.ty
+
+
+class HelperVariant(Variant):
+    """value-level specification (SMT-LIB Ints / Reals / Core): what the text denotes"""
+    prop_ids = ("C08", "C09")
+
+    def __init__(self, world, helper, shape):
+        self.world, self.helper, self.shape = world, helper, shape
+        self.qualname = PARSER + "." + helper
+        self.name = "helper:%s[%s]" % (helper, shape)
+
+    def setup(self, ex):
+        W = self.world
+        env = core.make_env(ex, W)
+        for c in (TypeManagerConst("INT", S.IntT), TypeManagerConst("BOOL", S.BoolT), TypeManagerConst("REAL", S.RealT)):
+            c.world = W
+            W.contracts[c.qualname] = c
+        mgr = env.fields["_formula_manager"]
+        stc = env.fields["_stc"]
+
+        def bound(clsq, meth, obj):
+            fi = W.repo.method(clsq, meth)
+            return W.wrap_func(fi, fi.module, bound=obj)
+        p = Obj(PARSER, {"env": env, "cache": None, "logic": None}, tag="parser")
+        # the fix_real wrappers (functools.partial objects made in __init__): on well-sorted arguments they are the constructors
+        for nm in ("Minus", "Equals", "Div", "Plus", "Times", "LT", "LE", "GT", "GE", "Ite"):
+            p.fields[nm] = bound("pysmt.formula.FormulaManager", nm, mgr)
+        p.fields["get_type"] = bound("pysmt.type_checker.SimpleTypeChecker", "get_type", stc)
+        self.a, self.b = z3.Const("a", Node), z3.Const("b", Node)
+        for x in (self.a, self.b):
+            W.touch(ex, x)
+            ex.assume(z3.Not(Ty.is_FunT(S.type_of(x))))
+        ta, tb = S.type_of(self.a), S.type_of(self.b)
+        sh = self.shape
+        if sh == "neg-int-literal":
+            ex.assume(z3.And(S.op(self.a) == S.INT_CONSTANT))
+            W.learn(ex, self.a, op=S.INT_CONSTANT, k=0)
+            args = [self.a]
+        elif sh == "neg-real-literal":
+            ex.assume(S.op(self.a) == S.REAL_CONSTANT)
+            W.learn(ex, self.a, op=S.REAL_CONSTANT, k=0)
+            args = [self.a]
+        elif sh == "neg-int-term":
+            ex.assume(ta == S.IntT)
+            args = [self.a]
+        elif sh == "neg-real-term":
+            ex.assume(ta == S.RealT)
+            args = [self.a]
+        elif sh == "binary-int":
+            ex.assume(z3.And(ta == S.IntT, tb == S.IntT))
+            args = [self.a, self.b]
+        elif sh == "binary-real":
+            ex.assume(z3.And(ta == S.RealT, tb == S.RealT))
+            args = [self.a, self.b]
+        elif sh == "bool":
+            ex.assume(z3.And(ta == S.BoolT, tb == S.BoolT))
+            args = [self.a, self.b]
+        elif sh == "same-sort":
+            ex.assume(z3.And(ta == tb, ta != S.BoolT, ta != S.NoneT))
+            args = [self.a, self.b]
+        else:
+            raise KeyError(sh)
+        fi = W.repo.method(PARSER, self.helper)
+        return W.wrap_func(fi, fi.module, bound=p), args, {}
+
+    def check(self, ex, outcome):
+        kind, r = outcome
+        sh, h = self.shape, self.helper
+        va, vb = S.val(self.a), S.val(self.b)
+        if kind == "raise":
+            return [("no-exception", z3.BoolVal(False))]
+        if not is_node(r):
+            return [("returns-node", z3.BoolVal(False))]
+        self.world.touch(ex, r)
+        t, v = S.type_of(r), S.val(r)
+        if h == "_minus_or_uminus":
+            if sh.startswith("neg-int"):
+                return [("sort", t == S.IntT), ("denotes-negation", S.vi(v) == -S.vi(va))] + \
+                    ([("literal-stays-a-literal", S.op(r) == S.INT_CONSTANT)] if sh == "neg-int-literal" else [])
+            if sh.startswith("neg-real"):
+                return [("sort", t == S.RealT), ("denotes-negation", S.vr(v) == -S.vr(va))] + \
+                    ([("literal-stays-a-literal", S.op(r) == S.REAL_CONSTANT)] if sh == "neg-real-literal" else [])
+            if sh == "binary-int":
+                return [("sort", t == S.IntT), ("denotes-difference", S.vi(v) == S.vi(va) - S.vi(vb)),
+                        ("C09:rebuilds-the-minus-node", r == self.world.mk_term(S.MINUS, [self.a, self.b], []))]
+            return [("sort", t == S.RealT), ("denotes-difference", S.vr(v) == S.vr(va) - S.vr(vb)),
+                    ("C09:rebuilds-the-minus-node", r == self.world.mk_term(S.MINUS, [self.a, self.b], []))]
+        if h == "_equals_or_iff":
+            goals = [("sort", t == S.BoolT), ("denotes-equality", S.vb(v) == (va == vb))]
+            Kop = S.IFF if sh == "bool" else S.EQUALS
+            goals.append(("C09:rebuilds-the-node", r == self.world.mk_term(Kop, [self.a, self.b], [])))
+            return goals
+        if h == "_division":
+            # '/' is the division of Reals; integer operands are converted
+            ra = S.vr(va) if sh == "binary-real" else z3.ToReal(S.vi(va))
+            rb = S.vr(vb) if sh == "binary-real" else z3.ToReal(S.vi(vb))
+            return [("sort", t == S.RealT), ("denotes-real-division", z3.Implies(rb != 0, S.vr(v) == ra / rb))]
+        if h == "_int_division":
+            from pyvc import spec
+            return [("sort", t == S.IntT),
+                    ("denotes-integer-division", z3.Implies(S.vi(vb) != 0, z3.And(S.vi(va) == S.vi(vb) * S.vi(v) + (S.vi(va) - S.vi(vb) * S.vi(v)),
+                                                                               S.vi(va) - S.vi(vb) * S.vi(v) >= 0,
+                                                                               S.vi(va) - S.vi(vb) * S.vi(v) < z3.If(S.vi(vb) < 0, -S.vi(vb), S.vi(vb))))),
+                    ("C09:rebuilds-the-div-node", r == self.world.mk_term(S.DIV, [self.a, self.b], []))]
+        return []
+
+
+_base_variants8 = variants
+
+
+def variants(world, tier="quick", only=None):
+    out = _base_variants8(world, tier, only)
+    extra = []
+    for sh in ("neg-int-literal", "neg-real-literal", "neg-int-term", "neg-real-term", "binary-int", "binary-real"):
+        extra.append(HelperVariant(world, "_minus_or_uminus", sh))
+    for sh in ("bool", "same-sort"):
+        extra.append(HelperVariant(world, "_equals_or_iff", sh))
+    for sh in ("binary-int", "binary-real"):
+        extra.append(HelperVariant(world, "_division", sh))
+    extra.append(HelperVariant(world, "_int_division", "binary-int"))
+    if only:
+        extra = [v for v in extra if any(o in v.name for o in only)]
+    return out + extra
